@@ -43,8 +43,13 @@ THEOREMS = [
     'CC.C06_elementImpedance_def', 'CC.C06_elementImpedance_spec', 'CC.C06_openCircuitVoltage_sound',
     'CC.C06_shortCircuitCurrent_def', 'CC.C06_shortCircuitCurrent_spec',
     'CC.C06_thevenin_record_terminal', 'CC.C06_norton_record_terminal',
+    # round 5 — translator tie: open_circuit_impedance / element_impedance as regenerated from the Python AST (CC/Gen/Port.lean by
+    # harness/extract_port.py) equal the hand model CC/Model/Port.lean (CC/Properties/C06Gen.lean, lemmas in CC/Proofs/PortGen.lean)
+    'CC.C06_gen_idioms', 'CC.C06_gen_transformers', 'CC.C06_gen_isolated',
+    'CC.C06_gen_open_circuit_impedance', 'CC.C06_gen_open_circuit_impedance_rows',
+    'CC.C06_gen_element_impedance', 'CC.C06_gen_element_impedance_rows', 'CC.C06_gen_value_lossless',
 ]
-LEAN_MODULE_EXTRA = ['CC.Properties.C06Prune', 'CC.Properties.C06PruneReg', 'CC.Properties.C06Equiv']
+LEAN_MODULE_EXTRA = ['CC.Properties.C06Prune', 'CC.Properties.C06PruneReg', 'CC.Properties.C06Equiv', 'CC.Properties.C06Gen']
 OPEN_STATEMENTS = [
     'CC.C06_impl_complete_statement (false for floating groups of nodes: C06_floating_island_counterexample)',
     'code-level equality WITH pruned unknowns: soundness is proved (C06_impl_eq_spec_pruned: PortZ defined and a number returned => the '
@@ -59,11 +64,14 @@ OPEN_STATEMENTS = [
     'statement phrased with an explicit equivalent NETWORK (source + series impedance as branches) solved by the model, the early-return / '
     'isolated-port branches of nortonEquivalent and shortCircuitCurrent (ZeroDivisionError, NonFinite, Infinite), sweep / dcResistance and '
     'the jwL, 1/(jwC) clause: model + correspondence + oracle only',
+    'translator tie (C06_gen_*) covers open_circuit_impedance and element_impedance only: open_circuit_voltage / short_circuit_current '
+    '(bias_point_analysis.py), Network/equivalent_sources.py and the wrappers of Circuit/impedance.py are NOT translated (hand model + '
+    'correspondence); a node_index_mapper other than map.default_node_mapper is outside the generated definitions as well',
 ]
 ASSUMPTIONS = [
-    'the code-level theorems speak about the MODEL CC/Model/Port.lean: C06_impl_eq_spec_partial (no pruned unknown, well-posed probe network), C06_impl_eq_spec_pruned (any pruned unknowns; hypothesis: PortZ is defined), C06_elementImpedance_*, C06_openCircuitVoltage_sound, C06_shortCircuitCurrent_*, C06_thevenin_record_terminal, C06_norton_record_terminal (hypotheses: valid network, solver answers, well-posed probe network, PortZ defined); that the model is the code rests on the correspondence and the exact Spec oracle (op port_spec)',
+    'the code-level theorems speak about the MODEL CC/Model/Port.lean: C06_impl_eq_spec_partial (no pruned unknown, well-posed probe network), C06_impl_eq_spec_pruned (any pruned unknowns; hypothesis: PortZ is defined), C06_elementImpedance_*, C06_openCircuitVoltage_sound, C06_shortCircuitCurrent_*, C06_thevenin_record_terminal, C06_norton_record_terminal (hypotheses: valid network, solver answers, well-posed probe network, PortZ defined); that the model is the code is a theorem for open_circuit_impedance / element_impedance (translator tie, C06_gen_*: generated-from-source definition = model, up to the trusted idiom files) and rests on the correspondence and the exact Spec oracle (op port_spec) for the other functions',
     'numpy.linalg.solve is a parameter of the model (certificates checked exactly by the driver); binary64 agrees with field arithmetic within 1e-7 relative on instances with cond < 1e8',
-    'hand-written model CC/Model/Port.lean is tied to the code by the port_pre / port_z / elem_z / oc_voltage / sc_current / port_sweep correspondence only',
+    'hand-written model CC/Model/Port.lean: open_circuit_impedance (with its nested helper isolated) and element_impedance are regenerated from the Python AST on every run (CC/Gen/Port.lean, harness/extract_port.py) and proved equal to Net.openCircuitImpedance / Net.elementImpedance for every network, label, solver and exception path (C06_gen_open_circuit_impedance, C06_gen_element_impedance, C06_gen_value_lossless; node mapper fixed to its default); trusted there: the reading of the numpy idioms in CC/Model/PortBase.lean (A.any(axis=0), A[:, j].any(), np.count_nonzero(keep[:k]), A[np.ix_(keep, keep)], x[i] = 1, x[i], np.linalg.solve as a parameter) besides CoreBase / TransformersBase.  The REST of the model (openCircuitVoltage, shortCircuitCurrent, Thevenin/Norton records, sweep / dcResistance) is tied to the code by the oc_voltage / sc_current / equivalents / port_sweep correspondence only; port_pre / port_z / elem_z remain as run-time cross-checks of the translated part',
     'the per-frequency networks of Circuit/impedance.py are the implementation\'s own transform_circuit outputs (modelled under C02/C07)',
     'the executable Spec (op port_spec) uses an unverified rank-revealing elimination over exact Gaussian rationals',
 ]
